@@ -588,18 +588,23 @@ def do_export(ctx, env, be, opt):
         again = exp.parse(**pk)
         if again != text:
             return 'history-differs', ('the same exporter asked twice', text, again)
-        other = {'c': 'json', 'cpp': 'bash', 'fortran': 'c', 'rust': 'yaml', 'bash': 'rust', 'json': 'fortran', 'yaml': 'cpp', 'toml': 'dip', 'dip': 'toml'}.get(be)
-        if other in ctx['classes']:
+        # EVERY other back-end goes over the same environment object (no selection: the exporters then hold the environment's own
+        # objects, not copies), then a fresh exporter of this back-end has to say what the first one said
+        others = [o for o in sorted(ctx['classes']) if o != be]
+        ran = []
+        for other in others:
             try:
                 ctx['classes'][other](env).parse()
+                ran.append(other)
             except Exception:
                 pass
+        if ran:
             exp3 = cls(env, **kw)
             if opt.get('query') is not None or opt.get('tags') is not None:
                 exp3.select(query=opt.get('query'), tags=opt.get('tags'))
             fresh = exp3.parse(**pk)
             if fresh != text:
-                return 'history-differs', ('fresh exporter after a %s export of the same environment' % other, text, fresh)
+                return 'history-differs', ('fresh exporter after %s exports of the same environment' % '/'.join(ran), text, fresh)
         tmp = tempfile.mkdtemp(prefix='vt_c19_')
         path = os.path.join(tmp, 'exported.txt')
         exp.save(path)
